@@ -12,6 +12,8 @@ CONSTANTS
   Modes = {"pruned"}
   MaxRestarts = 0
   MaxDeletes = 0
+  MaxReadFaults = 0
+  MaxAbortFaults = 0
   IntraHead = FALSE
   LazyChain = FALSE
   SimBias = FALSE
